@@ -73,6 +73,14 @@ TEMPLATES = {
                 "where forall <e> in <ex>: bytes(<e>.<bresp>.<bid>) == bytes(<e>.<breq>.<bid>)\n" + PARTIES_1,
         "externals": ["Extern"], "expected_msgs": 4,
     },
+    # two messages of one sender arriving back to back, the first of a type whose parser could still continue after a
+    # complete parse (one alternative is a proper prefix of the other)
+    "coalesce": {
+        "spec": "import vf_bridge\n<start> ::= <ex>{2}\n<ex> ::= <Fuzzer:Extern:req> <Extern:Fuzzer:st> <Extern:Fuzzer:note>\n<req> ::= 'REQ ' <id> '\\n'\n"
+                "<st> ::= 'OK ' <id> | 'OK ' <id> ' more\\n'\n<note> ::= 'N' <serial> '\\n'\n<id> ::= <digit>{3}\n<serial> ::= <digit>{4}\n" + DIG +
+                "where forall <e> in <ex>: str(<e>.<st>.<id>) == str(<e>.<req>.<id>)\n" + PARTIES_1,
+        "externals": ["Extern"], "expected_msgs": 6,
+    },
 }
 BEHAVIOURS = ["valid", "valid", "valid", "wrong-type", "bad-value", "truncated", "silence", "extra"]
 
@@ -213,10 +221,12 @@ def run_case(c):
     stop_flag = [False]
 
     def deliver(party, sender, data, kind):
+        whole = rng.random() < 0.3       # the peer's reply arrives as one chunk (several messages coalesced)
+
         def run():
             i = 0
             while i < len(data) and not stop_flag[0]:
-                k = rng.randint(1, 3)
+                k = rng.randint(1, 3) if not whole else len(data)
                 frag = data[i:i + k]
                 i += k
                 if c["maxdelay"]:
@@ -264,9 +274,13 @@ def run_case(c):
                 tag = "ERR"
             s = next_serial()
             good = f"{tag} {ident} s{s:04d}\n"
+            if c["t"] == "coalesce":
+                good = f"OK {ident}" + (" more\n" if rng.random() < 0.4 else "") + f"N{s:04d}\n"
             b = beh if ext == T["externals"][0] else "valid"
             if b == "valid":
                 data = good
+            elif b == "extra" and c["t"] == "coalesce":
+                data = good + f"N{next_serial():04d}\n"
             elif b == "wrong-type":
                 data = f"NOPE {ident} s{s:04d}\n"
             elif b == "bad-value":
